@@ -41,6 +41,10 @@ func Run(sc Scenario, T time.Duration) *Result {
 	}
 	// quiescence: free run until every caller returned or nothing moves
 	s.settle(150 * time.Millisecond)
+	if s.unfinished() > 0 {
+		// somebody is still inside Invoke: before calling that "hung", give a loaded machine much more time
+		s.settle(1200 * time.Millisecond)
+	}
 	res := &Result{Scenario: sc}
 	res.Scenario.Ops = done
 	s.mu.Lock()
@@ -50,33 +54,31 @@ func Run(sc Scenario, T time.Duration) *Result {
 		}
 	}
 	res.Closed = s.closed
-	res.SnapAt = len(s.log)
 	s.mu.Unlock()
 	sortInts(res.Hung)
-	res.Total, res.Free, res.Reqs = s.dc.VerifSnapshot()
+	// the snapshot must describe the state after exactly log[:SnapAt]: retry while the log moves
+	for i := 0; i < 50; i++ {
+		s.mu.Lock()
+		n1 := len(s.log)
+		s.mu.Unlock()
+		res.Total, res.Free, res.Reqs = s.safeSnapshot()
+		s.mu.Lock()
+		n2 := len(s.log)
+		s.mu.Unlock()
+		res.SnapAt = n2
+		if n1 == n2 {
+			break
+		}
+		time.Sleep(2 * time.Millisecond)
+	}
 	res.Probe = "none"
 	if !res.Closed {
-		// C28 "consequently" clause: a probe Invoke with a 1 s deadline.
-		s.startCaller(ActProbe, time.Second)
-		a := s.getActor(ActProbe)
-		dl := time.Now().Add(1500 * time.Millisecond)
-		for time.Now().Before(dl) {
-			s.mu.Lock()
-			fin := a.finished
-			s.mu.Unlock()
-			if fin {
-				break
-			}
-			s.autoReady()
-			time.Sleep(100 * time.Microsecond)
+		// C28 "consequently" clause: a probe Invoke with a 1 s deadline (repeated once with 4 s before a
+		// failure is reported, so that a starved machine is not mistaken for a starved caller).
+		res.Probe = s.probe(time.Second)
+		if res.Probe != "ok" {
+			res.Probe = s.probe(4 * time.Second)
 		}
-		s.mu.Lock()
-		if a.finished {
-			res.Probe = a.result
-		} else {
-			res.Probe = "err"
-		}
-		s.mu.Unlock()
 	}
 	s.Shutdown()
 	res.Log = s.snapshotLog()
@@ -84,6 +86,71 @@ func Run(sc Scenario, T time.Duration) *Result {
 	res.Viol = append(res.Viol, s.viol...)
 	s.mu.Unlock()
 	return res
+}
+
+// safeSnapshot reads the pool's counters. VerifSnapshot needs c.mu, which an actor parked inside a
+// region (pool.dead.enter, or any hook under the lock in park-everywhere scripts) holds: while the
+// snapshot does not return, parked actors are stepped.
+func (s *Sim) safeSnapshot() (int64, []int64, []int64) {
+	type snap struct {
+		total      int64
+		free, reqs []int64
+	}
+	ch := make(chan snap, 1)
+	go func() {
+		t, f, r := s.dc.VerifSnapshot()
+		ch <- snap{t, f, r}
+	}()
+	for {
+		select {
+		case x := <-ch:
+			return x.total, x.free, x.reqs
+		case <-time.After(20 * time.Millisecond):
+			for _, id := range s.parkedActors() {
+				s.mu.Lock()
+				a := s.actors[id]
+				skip := a.point == "h.invoke" || a.point == "h.start"
+				s.mu.Unlock()
+				if !skip {
+					s.step(id)
+				}
+			}
+		}
+	}
+}
+
+func (s *Sim) unfinished() int {
+	s.mu.Lock()
+	defer s.mu.Unlock()
+	n := 0
+	for id, a := range s.actors {
+		if id < ActProbe && a.started && !a.finished {
+			n++
+		}
+	}
+	return n
+}
+
+func (s *Sim) probe(deadline time.Duration) string {
+	s.startCaller(ActProbe, deadline)
+	a := s.getActor(ActProbe)
+	dl := time.Now().Add(deadline + 500*time.Millisecond)
+	for time.Now().Before(dl) {
+		s.mu.Lock()
+		fin := a.finished
+		s.mu.Unlock()
+		if fin {
+			break
+		}
+		s.autoReady()
+		time.Sleep(100 * time.Microsecond)
+	}
+	s.mu.Lock()
+	defer s.mu.Unlock()
+	if a.finished {
+		return a.result
+	}
+	return "err"
 }
 
 func (s *Sim) exec(op Op) {
@@ -199,19 +266,37 @@ func (s *Sim) checkpoint() {
 	if s.closed {
 		return
 	}
-	total, free, reqs := s.dc.VerifSnapshot()
-	s.mu.Lock()
-	liveFree := false
-	for _, c := range free {
-		for _, f := range s.fakes {
-			if f.id == c && !f.exited {
-				liveFree = true
+	starved := func() (bool, int64, []int64, []int64) {
+		total, free, reqs := s.safeSnapshot()
+		s.mu.Lock()
+		defer s.mu.Unlock()
+		liveFree := false
+		for _, c := range free {
+			for _, f := range s.fakes {
+				if f.id == c && !f.exited {
+					liveFree = true
+				}
 			}
 		}
+		return len(reqs) > 0 && (liveFree || (s.max >= 1 && total < s.max)), total, free, reqs
 	}
-	log := append([]Raw(nil), s.log...)
-	s.mu.Unlock()
-	if len(reqs) > 0 && (liveFree || (s.max >= 1 && total < s.max)) {
+	bad, total, free, reqs := starved()
+	// the condition must persist: a woken waiter needs time to reach its next hook on a loaded machine
+	for i := 0; bad && i < 100; i++ {
+		time.Sleep(5 * time.Millisecond)
+		for _, id := range s.parkedActors() {
+			s.mu.Lock()
+			a := s.actors[id]
+			skip := a.point == "h.invoke" || a.point == "h.start"
+			s.mu.Unlock()
+			if !skip {
+				s.step(id)
+			}
+		}
+		bad, total, free, reqs = starved()
+	}
+	if bad {
+		log := s.snapshotLog()
 		s.violate(classifyStarved(log, reqs[0]), fmt.Sprintf("checkpoint after event %d: requests %v stay blocked although total=%d max=%d free=%v", len(log), reqs, total, s.max, free))
 	}
 }
